@@ -18,7 +18,7 @@ ASSUMPTIONS = [
     "Unicode text = sequences of scalar values (no lone surrogates)",
     "a watchdog firing (30 s per tree) is reported as inconclusive, never as a violation",
 ]
-REQUIRED = ["trees_valid", "trees_invalid", "tree_calls", "node_calls", "config_fault_cases", "depth_ge_50", "fanout_ge_30"]
+REQUIRED = ["repeatability_checks", "trees_valid", "trees_invalid", "tree_calls", "node_calls", "config_fault_cases", "depth_ge_50", "fanout_ge_30"]
 EXHAUSTIVE = {"quick": False, "thorough": False}
 
 
@@ -101,6 +101,24 @@ def judge_tree(ctx, t, origin, log=None):
             ff_ok, errs = call_both(ctx, mvalidate.tree, "validate.tree", t, wit)
             ctx.evaluated(2)
             ctx.count("tree_calls", 2)
+            if ff_ok is not None and errs is not None and (ctx.counters["repeatability_checks"] < 400 or ctx.rng.random() < 0.1):
+                # the verdict on an unchanged tree must not depend on what was validated before (caches, memoised rule objects)
+                ctx.count("repeatability_checks")
+                errs2 = []
+                try:
+                    mvalidate.tree(t, errs2)
+                    try:
+                        mvalidate.tree(t)
+                        ff2 = True
+                    except mexc.MetapypeRuleError:
+                        ff2 = False
+                    sig = lambda es: [(getattr(e[0], "name", "?"), e[1], id(e[2])) for e in es]
+                    if ff2 != ff_ok or sig(errs2) != sig(errs):
+                        ctx.violation("verdict-not-repeatable", f"validating the same unchanged tree again: fail-fast ok {ff_ok} -> {ff2}, "
+                                                                f"{len(errs)} -> {len(errs2)} collected errors", wit())
+                except Exception:
+                    pass
+                ctx.evaluated(2)
             picks = nodes if len(nodes) <= 6 else ctx.rng.sample(nodes, 6)
             for n in picks:
                 call_both(ctx, mvalidate.node, f"validate.node(<{n.name}>)",
